@@ -168,7 +168,35 @@ pub fn run(ctx: &Ctx) -> Report {
             });
         }
     });
-    let st = st.merge(st2);
+    let mut st = st.merge(st2);
+    // (3) the ready-made "no additional requirements" value really is empty, and the slice form reports what it was given
+    {
+        use scratchstack_aws_signature::{SignedHeaderRequirements, SliceSignedHeaderRequirements, NO_ADDITIONAL_SIGNED_HEADERS};
+        use std::borrow::Cow;
+        let n = NO_ADDITIONAL_SIGNED_HEADERS;
+        let a = [Cow::Borrowed("A")];
+        let b = [Cow::Borrowed("B"), Cow::Borrowed("b2")];
+        let c = [Cow::Borrowed("C-")];
+        let s = SliceSignedHeaderRequirements::new(&a, &b, &c);
+        let ok = n.always_present().is_empty()
+            && n.if_in_request().is_empty()
+            && n.prefixes().is_empty()
+            && s.always_present() == &a[..]
+            && s.if_in_request() == &b[..]
+            && s.prefixes() == &c[..];
+        st.evaluations += 1;
+        st.validated += 1;
+        if !ok {
+            st.violation(crate::core::Violation {
+                index: base2 + n_seq + 1,
+                what: "requirement-containers-do-not-report-what-they-were-given".into(),
+                case: json!({}),
+                expected: "NO_ADDITIONAL_SIGNED_HEADERS empty; slice accessors return their slices".into(),
+                observed: format!("{:?} / {:?}", n, s),
+                known: None,
+            });
+        }
+    }
 
     Report {
         stats: st,
